@@ -10,7 +10,7 @@
    [srun]/[srun_ok] is the buffer-free specification of Spec/C10_BodySpec.v: a body with a cursor. *)
 From Coq Require Import ZArith NArith List Bool Arith.
 Require Import Webob.Lib.Val Webob.Model.C10_BodyStream Webob.Spec.C10_BodySpec
-               Webob.Proofs.C10_refine Webob.Proofs.C10_world Webob.Proofs.C10_body.
+               Webob.Proofs.C10_refine Webob.Proofs.C10_world Webob.Proofs.C10_body Webob.Proofs.C10_two.
 Import ListNotations.
 
 (* ---- exact_prefix: every history of access paths on the original request and on all its copies,
@@ -163,6 +163,36 @@ Theorem C10_copy_independent : forall chunk s c sk tm lg lim hist1 hist2 i a a',
   last_out (outputs chunk s c sk tm lg lim (hist1 ++ [(i, Body, a)])).
 Proof. exact copy_independent. Qed.
 Print Assumptions C10_copy_independent.
+
+(* ---- no hidden state.  The model keeps ALL state in the environ records and in the files they point to (there is no
+   per-wrapper, per-class or per-module component to begin with), so "the same Request object used again" and "a
+   brand-new Request over the same environ" are the same thing in the model; that this is true of the code is what the
+   correspondence and the oracle check with several wrappers over one environ.  What is a theorem: a long-lived request
+   answers each of its own steps as the specification's request does on those steps alone, whatever is done to its
+   copies in between ... *)
+Theorem C10_long_lived_alone : forall chunk s c sk tm lg lim hist,
+  1 <= chunk -> consistent s c sk -> long_enough s c sk ->
+  answers_for 0 hist (outputs chunk s c sk tm lg lim hist) = alone (sinit s c sk tm lg) (only_for 0 hist).
+Proof. exact long_lived_alone. Qed.
+Print Assumptions C10_long_lived_alone.
+
+(* ... and two independent requests alive at the same time (two environs, two server streams, one heap, any
+   interleaving of their histories and of those of all their copies) each answer as if they were alone *)
+Theorem C10_two_live_refines_spec : forall chunk s1 c1 sk1 tm1 lg1 lim1 s2 c2 sk2 tm2 lg2 lim2 hist,
+  1 <= chunk -> consistent s1 c1 sk1 -> consistent s2 c2 sk2 ->
+  exists ss', srun_ok [sinit s1 c1 sk1 tm1 lg1; sinit s2 c2 sk2 tm2 lg2] hist
+                      (outputs2 chunk s1 c1 sk1 tm1 lg1 lim1 s2 c2 sk2 tm2 lg2 lim2 hist) ss'.
+Proof. exact refines2. Qed.
+Print Assumptions C10_two_live_refines_spec.
+
+Theorem C10_two_live_independent : forall chunk s1 c1 sk1 tm1 lg1 lim1 s2 c2 sk2 tm2 lg2 lim2 hist,
+  1 <= chunk -> consistent s1 c1 sk1 -> consistent s2 c2 sk2 ->
+  long_enough s1 c1 sk1 -> long_enough s2 c2 sk2 ->
+  let xs := outputs2 chunk s1 c1 sk1 tm1 lg1 lim1 s2 c2 sk2 tm2 lg2 lim2 hist in
+  answers_for 0 hist xs = alone (sinit s1 c1 sk1 tm1 lg1) (only_for 0 hist) /\
+  answers_for 1 hist xs = alone (sinit s2 c2 sk2 tm2 lg2) (only_for 1 hist).
+Proof. exact two_live_independent. Qed.
+Print Assumptions C10_two_live_independent.
 
 (* the copy exists, shares nothing, and changing it leaves the original's body alone: a concrete run *)
 Example C10_copy_example :
